@@ -49,6 +49,7 @@ def queries(tier):
     step = 6 if tier == 'quick' else 1
     for name, tpl, val, exp in _c02.FAMILY:
         if tier == 'quick' and name not in ('loop_set', 'if_elseif', 'inline_if', 'svar'): continue
+        if name in _c02.LATE: continue
         for cut in range(1, len(tpl), step):
             qs.append(Query('driver/cut/%s/%d' % (name, cut), 'C02_render.cpp', 'h_render', {'TPL': _json.dumps(tpl), 'VAL': val, 'EXPECT': exp, 'CUT': cut}, bounds=_c02.B(len(tpl)), default_unwind=5,
                             default_rec=3, rec_bounds={'~Value': 2, 'render|evaluate|parseExpressions': 4}, timeout=600, mem_gb=14))
